@@ -455,10 +455,12 @@ pub fn run_script(vm: &mut vm::VM<VS>, name: &str, src: &str, budget: u64) -> (S
     crate::util::reset_last_panic();
     let buf = SharedBuf::default();
     script::set_io_writer(vm, buf.clone());
+    crate::util::call_begin();
     let r = std::panic::catch_unwind(std::panic::AssertUnwindSafe(|| {
         let _ = vm.push_source(name.to_string(), src.to_string());
         script::run(vm).map_err(|e| (format!("{e}"), e.error.title()))
     }));
+    crate::util::call_end();
     BUDGET.with(|b| b.set(u64::MAX));
     let outcome = match r {
         Ok(Ok(())) => Outcome::Ok,
@@ -483,6 +485,7 @@ pub fn run_src<HH: vm::Handlers<VS>>(vm: &mut vm::VM<VS>, name: &str, src: &str,
     BUDGET.with(|b| b.set(budget));
     crate::util::reset_last_panic();
     // rendering the error is part of what must not panic, so it happens inside the catch
+    crate::util::call_begin();
     let r = std::panic::catch_unwind(std::panic::AssertUnwindSafe(|| {
         let _ = vm.push_source(name.to_string(), src.to_string());
         vm.run::<HH>().map_err(|e| {
@@ -493,6 +496,7 @@ pub fn run_src<HH: vm::Handlers<VS>>(vm: &mut vm::VM<VS>, name: &str, src: &str,
             (format!("{rendered}{mark}"), e.error.title())
         })
     }));
+    crate::util::call_end();
     BUDGET.with(|b| b.set(u64::MAX));
     let outcome = match r {
         Ok(Ok(())) => Outcome::Ok,
